@@ -315,12 +315,21 @@ func runC05(env *core.Env) {
 	b.OnState = checkState
 	b.Run()
 	validated := b.Conf.run(env)
+	// a log that takes several read(2) calls (two 150 KB bodies), so that a read can fail after earlier ones succeeded
+	bigLog := newSynLog()
+	bigLog.t = bigLog.t.Add(48 * time.Hour)
+	bigLog.Create(SynItem{ID: core.IDFor(9701), Title: "big one", Body: strings.Repeat("one hundred and fifty kilobytes ", 4800)})
+	bigLog.Create(SynItem{ID: core.IDFor(9702), Title: "big two", Body: strings.Repeat("of body text in a single event. ", 4800)})
+	bigLog.Create(SynItem{ID: core.IDFor(9703), Title: "small tail"})
+	big := rich.Store.WithLog(append(append([]byte{}, rich.Store.Log()...), bigLog.Bytes()...))
+	faultCov := unchangedWhateverPhase(env, "C05", []core.Store{rich.Store, tornVariants(rich.Store)[0], roots[nRoots-1], big, tornVariants(big)[0]}, crashCmd{"compact", core.R("", "--json", "compact")})
 	_ = os.Stderr
 	if len(samples.list) == 0 {
 		samples.add("(no state at the depth bound)")
 	}
 	env.Finish("model_checking", map[string]interface{}{
-		"states": b.States, "transitions": b.Transitions, "traces_validated_against_impl": validated, "samples": samples.list,
+		"io_error_phase": faultCov,
+		"states":         b.States, "transitions": b.Transitions, "traces_validated_against_impl": validated, "samples": samples.list,
 		"exhaustive": b.CapHit == "" || b.CapHit == "max_depth", "cap_hit": b.CapHit, "history_depth_completed": b.DepthDone, "roots": len(roots),
 		"states_checked": statesChecked, "commuting_diagram_checks": commuteChecks, "states_by_depth": classes.snapshot(),
 		"unconfirmed_candidates": unconfirmed.Load(),
@@ -417,6 +426,14 @@ func c05MergedRoots() []core.Store {
 		l.ev("state", ts, map[string]interface{}{"id": b, "state": "blocked", "ts": ts})
 		l.ev("state", ts, map[string]interface{}{"id": c, "state": "done", "ts": ts})
 		l.ev("state", ts, map[string]interface{}{"id": c, "state": "todo", "ts": ts})
+		// an item created and updated within one clock reading: every update carries the creation's own timestamp
+		d := core.IDFor(9505)
+		l.ev("new_task", ts, map[string]interface{}{"id": d, "uuid": "u-" + d, "epic_id": "", "state": "todo", "title": "D as created", "body": "body as created", "created_at": ts})
+		l.ev("title", ts, map[string]interface{}{"id": d, "title": "D retitled in the same instant", "ts": ts})
+		l.ev("body", ts, map[string]interface{}{"id": d, "body": "body rewritten in the same instant", "ts": ts})
+		l.ev("epic", ts, map[string]interface{}{"id": d, "epic_id": core.IDFor(9500), "ts": ts})
+		l.ev("claim", ts, map[string]interface{}{"id": d, "agent_id": "same-instant", "ts": ts})
+		l.ev("state", ts, map[string]interface{}{"id": d, "state": "blocked", "ts": ts})
 		out = append(out, mk(l))
 	}
 	{ // an older writer: epics with state and claim events
